@@ -65,7 +65,9 @@ var focusWeights = map[string]map[string]int{
 		"feegrant.grant": 3, "bank.send": 1},
 	"authz":  {"authz.grant": 10, "authz.revoke": 2, "authz.exec": 20},
 	"gov":    {},
-	"signer": {},
+	"signer": {"ent.raise": 5, "ent.decide": 8, "ent.wl": 2, "wrk.reg": 3, "wrk.rec": 6, "wrk.buy": 3, "bcn.reg": 3, "bcn.rec": 6, "bcn.buy": 3,
+		"str.create": 3, "str.claim": 3, "str.topup": 2, "str.rate": 2, "str.cancel": 1, "bank.send": 2, "authz.grant": 2, "authz.revoke": 1,
+		"authz.exec": 3, "feegrant.grant": 1},
 	"query":  {},
 	"genesis": {"ent.wl": 3, "ent.raise": 7, "ent.decide": 7, "wrk.reg": 3, "wrk.rec": 10, "wrk.buy": 2, "bcn.reg": 3, "bcn.rec": 10, "bcn.buy": 2,
 		"str.create": 5, "str.claim": 2, "str.topup": 2, "str.rate": 1, "str.cancel": 1, "bank.send": 2, "authz.grant": 1, "feegrant.grant": 1},
@@ -108,7 +110,7 @@ func newWeights(focus string) (*weights, error) {
 	case "gov":
 		w.govPct = 45
 	case "signer":
-		w.scramble = 60
+		w.scramble = 45
 	case "stream":
 		w.longSteps = true
 	case "query":
